@@ -60,10 +60,17 @@ impl<K: Clone + PartialEq + Eq + Hash + std::fmt::Debug + std::cmp::PartialOrd, 
     }
 
     /// Drop an entry which was put into wmap, but couldn't be populated
+    ///
+    /// The entry stays if anyone besides the caller got hold of it in the
+    /// meantime: that user is going to populate and commit it, and has to
+    /// find it here for that.
     pub(crate) fn remove_from_wmap(&self, key: &K) {
         let mut w = self.wmap.lock().unwrap();
 
-        w.remove(key);
+        // one reference is the map's, one the caller's
+        if matches!(w.get(key), Some(e) if Arc::strong_count(e) <= 2) {
+            w.remove(key);
+        }
     }
 
     /// Flush key/value pairs from wmap to rmap
